@@ -69,8 +69,19 @@ def pairs(names, bound, same=True, triple=None):
 def evaluate(case, rec, calls, files, site, min_points=2):
     fl = {os.path.realpath(os.path.join(REPO, f)) for f in files}
     names = case['calls']
-    ref = [_outcome(calls[n]()) for n in names]           # each call alone, first
-    ref2 = [_outcome(calls[n]()) for n in names]          # ... and again: the reference itself must be repeatable
+    from gpmc import snapshot as snp
+
+    def alone():
+        fs = [calls[n]() for n in names]                  # arguments built (this may import a module)
+        before = snp.snap_modules(exclude_constants=False)
+        r1 = [_outcome(f) for f in fs]                    # each call alone, first
+        after = snp.snap_modules(exclude_constants=False)
+        dirty = sorted(m for m in snp.diff_modules(before, after) if m in before and m in after)
+        r2 = [_outcome(calls[n]()) for n in names]        # ... and again: the reference itself must be repeatable
+        return r1, r2, dirty
+    # in a forked copy: this process stays as it was (its parent has only imported the library), so that a first-use
+    # initialisation racing between two threads is still ahead of every schedule explored below
+    ref, ref2, dirty = in_child(alone)
     if ref != ref2:
         rec.fail('the same call gives different results when simply repeated (%s)' % names, site=site + ':repeat', observed=str(ref2)[:300],
                  expected=str(ref)[:300], case=case)
@@ -84,7 +95,11 @@ def evaluate(case, rec, calls, files, site, min_points=2):
         # sequential probe after the concurrent phase: what the interleaving left behind
         after = [_outcome(calls[n]()) for n in names]
         return {'points': ex.points, 'choices': ex.choices, 'res': res, 'after': after}
-    mode = {'forked': False}
+    # calls that leave module-level data behind (a lazily built table, a cache, a scratch object): every schedule runs in its
+    # own forked copy, i.e. from the state in which nothing has been built yet
+    mode = {'forked': bool(dirty)}
+    if dirty:
+        rec.outcome('threads-forked-mode')
 
     def run_one(prefix):
         return in_child(lambda: run_one_here(prefix)) if mode['forked'] else run_one_here(prefix)
